@@ -204,6 +204,8 @@ pad!(c12_sha1_padding_len120, 120);
 pad!(c12_sha1_padding_len128, 128);
 pad!(c12_sha1_padding_len183, 183);
 pad!(c12_sha1_padding_len184, 184);
+// one more length chosen by VERIF_SEED (gen/params.rs)
+pad!(c12_sha1_padding_seeded_len, { crate::verif_support::params::SHA1_PAD_LEN });
 
 /// two updates (split at a symbolic point) give the same block sequence as one
 #[kani::proof]
